@@ -158,7 +158,7 @@ Section Round.
       - destruct (t_struct t_run (B "Endpoints_MarshalJSON") (endpoints_fields e)); [|discriminate]. intros H. inversion H. left. reflexivity.
       - destruct (t_struct t_run (B "PublicKey_MarshalJSON") (pubkey_fields id o' p)); [|discriminate]. intros H. inversion H. left. reflexivity. }
     destruct (bytes_eqb writer (B "JSONWriteTimeProp")).
-    { destruct v as [[ | | | |t0| | | | | | | | ]|]; try discriminate. intros H. inversion H. left. reflexivity. }
+    { destruct v as [[ | | | |t0| | | | | | | | ]|]; try discriminate. destruct (time_writable t0); intros H; inversion H; left; reflexivity. }
     destruct (bytes_eqb writer (B "JSONWriteDurationProp")).
     { destruct v as [[ | | | | |d| | | | | | | ]|]; try discriminate. destruct (fmt_xsd_duration d); [|discriminate]. intros H. inversion H. left. reflexivity. }
     destruct (bytes_eqb writer (B "JSONWriteIntProp")); [intros H; inversion H; left; reflexivity|].
